@@ -441,6 +441,9 @@ type Contract struct {
 	Requires []Clause
 	Ensures  []Clause
 	Modifies []Clause
+	PanicsUnless []Clause // run-time panic conditions of an extern: assumed (partial correctness) or, in the no-panic sweep, obligations
+	Applies  string   // extern that calls its function-valued parameter once: the closure's contract is applied at the call site
+	With     []Clause // facts about the arguments (arg0, arg1, ...) the extern passes to the applied closure
 	SetEnsures []Clause // postcondition of running the call once for every key in the deferred set 'keys' (commutative-defer rule)
 	Loops    map[int]*LoopSpec
 	Reveal   map[string]bool // opaque spec functions whose definitions this proof may use
@@ -603,6 +606,29 @@ func (db *SpecDB) ParseSpecText(lines []string, srcs []string) error {
 			} else {
 				cur.Ensures = append(cur.Ensures, c)
 			}
+		case "panics-unless":
+			if cur == nil {
+				return fmt.Errorf("%s: panics-unless outside a contract", l.src)
+			}
+			c, err := mk(rest, l.src, fmt.Sprintf("nopanic%d", len(cur.PanicsUnless)+1))
+			if err != nil {
+				return err
+			}
+			cur.PanicsUnless = append(cur.PanicsUnless, c)
+		case "applies":
+			if cur == nil {
+				return fmt.Errorf("%s: applies outside a contract", l.src)
+			}
+			cur.Applies = strings.TrimSpace(rest)
+		case "with":
+			if cur == nil {
+				return fmt.Errorf("%s: with outside a contract", l.src)
+			}
+			c, err := mk(rest, l.src, fmt.Sprintf("with%d", len(cur.With)+1))
+			if err != nil {
+				return err
+			}
+			cur.With = append(cur.With, c)
 		case "setensures":
 			if cur == nil {
 				return fmt.Errorf("%s: setensures outside a contract", l.src)
